@@ -68,6 +68,7 @@ func (cbm *callbackMgr[T]) runCBs(ctx context.Context) {
 	lastSerial := uint64(0)
 	lastVersion := (*T)(nil)
 	for ev := range cbm.ch {
+		verifSched("cb.event")
 		switch e := ev.(type) {
 		case *watchErrorEvent[T]:
 			if cbm.p.OnWatchedError != nil {
